@@ -36,10 +36,19 @@ def _one_scanner(job):
         spec = rt.run_model(cfn, spec=True)
         d_model = rt.first_diff(real['out'], mod['out'])
         d_spec = rt.first_diff(real['out'], spec['out'])
+        st = real.get('stats', {})
+        ledger = None
+        if cfg.ledger and real['rc'] == 0:
+            if st.get('badfree', 0) != 0:
+                ledger = 'a pointer that did not come from yyalloc/yyrealloc was freed or reallocated (%d times)' % st['badfree']
+            elif c['main'] and c['main'][-1] == 'destroy' and not any(l.startswith('fatal') for l in real['out']) \
+                    and st.get('live', 0) != 0:
+                ledger = '%d allocation(s) still live after the buffers were deleted and yylex_destroy() was called' % st['live']
+        cr_ledger = ledger
         cr = {'k': k, 'rc': real['rc'], 'events': len(real['out']), 'd_model': d_model, 'd_spec': d_spec,
               'bufsize': c.get('bufsize'), 'sched': c.get('sched'), 'nacts': len(c.get('acts') or {}),
-              'inlen': [len(s) for s in c['srcs']]}
-        bad = real['rc'] != 0 or d_model is not None or d_spec is not None or mod['rc'] != 0
+              'inlen': [len(s) for s in c['srcs']], 'ledger': cr_ledger, 'stats': st}
+        bad = real['rc'] != 0 or d_model is not None or d_spec is not None or mod['rc'] != 0 or ledger is not None
         if bad:
             cr['case'] = ct
             cr['real_tail'] = real['out'][-12:]
@@ -97,7 +106,20 @@ def _ops_case(kinds=None, small=True, nsrc=1, wrap=False):
         wraps = None
         if wrap and nsrc > 1:
             wraps = [rng.randrange(1, nsrc) for _ in range(rng.randrange(0, 3))] + [None]
-        return dict(srcs=srcs, main=['lex'] * (nret + 2), acts=acts, wraps=wraps,
+        eacts = {}
+        if cfg.eof_scs:
+            nsc = len(rs.scs)
+            for j in range(6):
+                x = rng.random()
+                if x < 0.3:
+                    eacts[j] = ['begin:%d' % rng.randrange(nsc), 'start']
+                elif x < 0.45:
+                    eacts[j] = ['return:%d' % rng.randrange(1, 90)]; nret += 1
+                elif x < 0.55 and cfg.stack:
+                    eacts[j] = ['push:%d' % rng.randrange(nsc)]
+                elif x < 0.65:
+                    eacts[j] = ['input']
+        return dict(srcs=srcs, main=['lex'] * (nret + 2) + ['destroy'], acts=acts, wraps=wraps, eacts=eacts,
                     sched=rtgen.gen_sched(rng), bufsize=bufsize)
     return gen
 
@@ -112,45 +134,188 @@ def _compressed(rng):
 
 def fam_ops(rng):
     rs = rules.gen_ruleset(rng, p_trail=0.0)
-    cfg = rt.Config(backend=_backend(rng), topt=rng.choice(TOPTS), interactive=rng.choice([None, False]),
+    cfg = rt.Config(ledger=rng.random() < 0.5, backend=_backend(rng), topt=rng.choice(TOPTS), interactive=rng.choice([None, False]),
                     yymore=rng.random() < 0.5, stack=rng.random() < 0.6, array=rng.random() < 0.3)
     return rs, cfg, _ops_case()
 
 
 def fam_unput(rng):
     rs = rules.gen_ruleset(rng, p_trail=0.0)
-    cfg = rt.Config(backend=_backend(rng), topt=rng.choice(TOPTS), interactive=rng.choice([None, False]),
+    cfg = rt.Config(ledger=rng.random() < 0.5, backend=_backend(rng), topt=rng.choice(TOPTS), interactive=rng.choice([None, False]),
                     array=rng.random() < 0.3, lineno=rng.random() < 0.5)
     return rs, cfg, _ops_case(kinds=['unput', 'input', 'less', 'return'], small=False)
 
 
 def fam_reject(rng):
     rs = rules.gen_ruleset(rng, p_trail=0.0)
-    cfg = rt.Config(backend=_backend(rng), topt=_compressed(rng), interactive=rng.choice([None, False]),
+    cfg = rt.Config(ledger=rng.random() < 0.5, backend=_backend(rng), topt=_compressed(rng), interactive=rng.choice([None, False]),
                     reject=True, lineno=rng.random() < 0.4, array=rng.random() < 0.3)
     return rs, cfg, _ops_case(kinds=['reject', 'reject', 'begin', 'return'], small=False)
 
 
 def fam_lineno(rng):
     rs = rules.gen_ruleset(rng, p_trail=0.2)
-    cfg = rt.Config(backend=_backend(rng), topt=rng.choice(TOPTS), interactive=rng.choice([None, False]),
+    cfg = rt.Config(ledger=rng.random() < 0.5, backend=_backend(rng), topt=rng.choice(TOPTS), interactive=rng.choice([None, False]),
                     lineno=True, yymore=rng.random() < 0.4)
     return rs, cfg, _ops_case(kinds=['less', 'input', 'more', 'return'] if cfg.yymore else ['less', 'input', 'return'])
 
 
 def fam_trail(rng):
     rs = rules.gen_ruleset(rng, p_trail=0.6, p_bol=0.3)
-    cfg = rt.Config(backend=_backend(rng), topt=rng.choice(TOPTS), interactive=rng.choice([None, False]))
+    cfg = rt.Config(ledger=rng.random() < 0.5, backend=_backend(rng), topt=rng.choice(TOPTS), interactive=rng.choice([None, False]))
     return rs, cfg, _ops_case(kinds=['less', 'return'])
 
 
 def fam_eof(rng):
     rs = rules.gen_ruleset(rng, p_trail=0.0, p_sc=0.8)
     eof = [i for i in range(len(rs.scs)) if rng.random() < 0.6]
-    cfg = rt.Config(backend=_backend(rng), topt=rng.choice(TOPTS), interactive=rng.choice([None, False]),
+    cfg = rt.Config(ledger=rng.random() < 0.5, backend=_backend(rng), topt=rng.choice(TOPTS), interactive=rng.choice([None, False]),
                     eof_scs=eof, stack=True)
     return rs, cfg, _ops_case(kinds=['begin', 'push', 'pop', 'input', 'return'], nsrc=3, wrap=True)
 
 
-FAMILIES = {'plain': fam_plain, 'ops': fam_ops, 'unput': fam_unput, 'reject': fam_reject,
+def _buffers_case(rng, rs, cfg):
+    """histories of buffer operations between yylex calls and inside actions (C11)"""
+    nsrc = 9
+    srcs = [rtgen.gen_input(rng, rs, maxlen=30) for _ in range(nsrc)]
+    file_pool = list(range(4, nsrc))                  # each used for at most one yy_create_buffer
+    srcs[3] = [c for c in srcs[3] if c != 0]          # usable with yy_scan_string
+    main = ['lex', 'grab']                            # registry 0 = the initial buffer
+    reg = [{'kind': 'file', 'alive': True}]
+    cur = 0
+    stack = []                                        # registry ids below the current one
+    acts = {}
+    nlex = 1
+    for step in range(rng.randrange(3, 12)):
+        live = [i for i, b in enumerate(reg) if b['alive']]
+        choices = ['scanbytes', 'scanstring', 'scanbuffer', 'create_switch', 'create_push']
+        if cur is not None:
+            choices += ['lex', 'lex']
+        if len([i for i in live if i != cur and i not in stack]) > 0:
+            choices += ['switch', 'switch', 'delete', 'pushbuf']
+        if cur is not None and stack:
+            choices += ['popbuf', 'popbuf']
+        if any(reg[i]['kind'] == 'mem' for i in live):
+            choices.append('flush')
+        if rng.random() < 0.08:
+            choices = ['scanbuffer_bad']
+        op = rng.choice(choices)
+        free = [i for i in live if i != cur and i not in stack]
+        if op == 'lex':
+            main.append('lex'); nlex += 1
+        elif op in ('scanbytes', 'scanstring', 'scanbuffer'):
+            src = 3 if op == 'scanstring' else rng.randrange(1, 4)
+            main.append('%s:%d%s' % (op, src, ':2' if op == 'scanbuffer' else ''))
+            reg.append({'kind': 'mem', 'alive': True}); cur = len(reg) - 1
+            main.append('lex'); nlex += 1
+        elif op == 'scanbuffer_bad':
+            src, nuls = rng.randrange(1, 4), rng.choice([0, 1])
+            main.append('scanbuffer:%d:%d' % (src, nuls))
+            given = (list(srcs[src]) + [0, 0])[:len(srcs[src]) + nuls]
+            if len(given) >= 2 and given[-2:] == [0, 0]:
+                # the data itself ends in NULs: yy_scan_buffer accepts it
+                reg.append({'kind': 'mem', 'alive': True}); cur = len(reg) - 1
+            else:
+                reg.append({'kind': 'null', 'alive': False})
+        elif op in ('create_switch', 'create_push'):
+            if not file_pool:
+                continue
+            src = file_pool.pop()
+            main.append('create:%d:%d' % (src, 16384 if getattr(cfg, 'reject_machinery', cfg.reject) else rng.choice([1, 2, 3, 8, 16384])))
+            reg.append({'kind': 'file', 'alive': True})
+            idx = len(reg) - 1
+            if op == 'create_switch':
+                main.append('switch:%d' % idx)
+            else:
+                main.append('pushbuf:%d' % idx)
+                if cur is not None:
+                    stack.append(cur)
+            cur = idx
+            main.append('lex'); nlex += 1
+        elif op == 'switch':
+            idx = rng.choice(free)
+            main.append('switch:%d' % idx); cur = idx
+            main.append('lex'); nlex += 1
+        elif op == 'pushbuf':
+            idx = rng.choice(free)
+            main.append('pushbuf:%d' % idx)
+            if cur is not None:
+                stack.append(cur)
+            cur = idx
+            main.append('lex'); nlex += 1
+        elif op == 'popbuf':
+            main.append('popbuf')
+            reg[cur]['alive'] = False
+            cur = stack.pop()
+            main.append('lex'); nlex += 1
+        elif op == 'delete':
+            idx = rng.choice(free)
+            main.append('delete:%d' % idx); reg[idx]['alive'] = False
+        elif op == 'flush':
+            idx = rng.choice([i for i in live if reg[i]['kind'] == 'mem'])
+            main.append('flush:%d' % idx)
+    main += ['lex'] * 2
+    # the user deletes their own non-current buffers, destroys the scanner, uses it again, destroys it
+    for i, b in enumerate(reg):
+        if b['alive'] and i != cur and i not in stack:
+            main.append('delete:%d' % i)
+    main += ['destroy', 'newyyin:0', 'lex', 'lex', 'destroy']
+    # actions return now and then so that the top-level script gets its turns
+    for k in range(120):
+        x = rng.random()
+        if x < 0.25:
+            acts[k] = ['return:%d' % rng.randrange(1, 90)]
+        elif x < 0.32:
+            acts[k] = ['less:%d' % rng.randrange(0, 5)]
+        elif x < 0.38:
+            acts[k] = ['input']
+    return dict(srcs=srcs, main=main, acts=acts, wraps=None, sched=rtgen.gen_sched(rng),
+                bufsize=rng.choice(rtgen.BUFSIZES))
+
+
+def _include_case(rng, rs, cfg):
+    """buffer switching from inside actions: nested includes by yy_scan_bytes + push, or by
+    yy_create_buffer + yypush_buffer_state; every <<EOF>> action pops and continues."""
+    nsrc = 9
+    srcs = [rtgen.gen_input(rng, rs, maxlen=30) for _ in range(nsrc)]
+    pool = list(range(1, nsrc))
+    rng.shuffle(pool)
+    acts = {}
+    nreg = 0
+    for k in range(100):
+        x = rng.random()
+        if x < 0.12 and pool:
+            src = pool.pop()
+            acts[k] = ['create:%d:%d' % (src, 16384 if getattr(cfg, 'reject_machinery', cfg.reject) else rng.choice([1, 2, 3, 8, 16384])), 'pushbuf:%d' % nreg]
+            nreg += 1
+        elif x < 0.2:
+            acts[k] = ['return:%d' % rng.randrange(1, 90)]
+        elif x < 0.26:
+            acts[k] = ['less:%d' % rng.randrange(0, 4)]
+        elif x < 0.3:
+            acts[k] = ['input']
+        elif x < 0.33 and cfg.lineno:
+            acts[k] = ['getlineno']
+    return dict(srcs=srcs, main=['lex'] * 12, acts=acts, wraps=None, sched=rtgen.gen_sched(rng),
+                bufsize=rng.choice(rtgen.BUFSIZES), eofact=['include_end'])
+
+
+def fam_include(rng):
+    rs = rules.gen_ruleset(rng, p_trail=0.0, p_bol=0.3, p_sc=0.3)
+    cfg = rt.Config(backend=_backend(rng), topt=rng.choice(TOPTS), interactive=rng.choice([None, False]),
+                    lineno=rng.random() < 0.5, eof_scs=list(range(len(rs.scs))))
+    return rs, cfg, _include_case
+
+
+def fam_buffers(rng):
+    rs = rules.gen_ruleset(rng, p_trail=0.0, p_bol=0.3)
+    cfg = rt.Config(backend=_backend(rng), topt=rng.choice(TOPTS), interactive=rng.choice([None, False]),
+                    lineno=rng.random() < 0.5, ledger=rng.random() < 0.7, stack=rng.random() < 0.3,
+                    reject=rng.random() < 0.2)
+    if cfg.reject:
+        cfg.topt = _compressed(rng)
+    return rs, cfg, _buffers_case
+
+
+FAMILIES = {'buffers': fam_buffers, 'include': fam_include, 'plain': fam_plain, 'ops': fam_ops, 'unput': fam_unput, 'reject': fam_reject,
             'lineno': fam_lineno, 'trail': fam_trail, 'eof': fam_eof}
